@@ -94,8 +94,16 @@ def rand_list(rng, n_in=None, n_mid=None, n_ret=None, depth=3, ops=OPS, names="n
             if rng.random() < 0.5:
                 atoms.append(nm)  # make reuse likely
     rets = ["_ret"] if n_ret == 1 else [f"_ret.{i}" for i in range(n_ret)]
+    mids = [x[0] for x in lst]
+    interleave = len(rets) >= 2 and mids and rng.random() < 0.2
     for r in rets:
         lst.append([r, rand_expr(rng, atoms, rng.randint(1, depth), ops, nary, p_leaf=0.15)])
+        if interleave and r != rets[-1]:
+            # sequential semantics: an intermediate the return bit above may use is redefined before the next one
+            nm = rng.choice(mids)
+            lst.append([nm, rand_expr(rng, atoms, rng.randint(1, depth), ops, nary)])
+            if nm not in atoms:
+                atoms.append(nm)
     return {"inputs": inputs, "list": lst}
 
 
